@@ -293,6 +293,64 @@ class Run:
                             for method in rng.sample(['disable', 'enable'], 2):
                                 w.user_rpc(nick, 'supvisors.' + method, prog, False)
                                 w.run_for(0.5)
+        elif kind == 'stop_then_decrease':
+            # an application is being stopped (several stop_sequence levels, slow stops) when the numprocs of one of
+            # its programs is decreased on the instances that run it: processes of the lower levels disappear from
+            # these instances while the stop plan still holds commands for them
+            multi = {}
+            for inst in w.live():
+                for ns, st in inst.running_truth().items():
+                    if st in RUNNING_STATES and ns in self.procs:
+                        app_name, prog = self.procs[ns]
+                        if self.model[app_name]['managed'] and \
+                                self.model[app_name]['programs'][prog].get('numprocs', 1) > 1:
+                            multi.setdefault(app_name, set()).add((inst.nick, prog))
+            if multi:
+                app_name = rng.choice(sorted(multi))
+                rec['args'] = (app_name, False)
+                rec['res'] = w.user_rpc(nick, 'supvisors.stop_application', app_name, False)
+                w.run_for(rng.choice([0.0, 0.05, 0.3, 1.0]))
+                for host, prog in sorted(multi[app_name]):
+                    hinst = w.instances[host]
+                    if hinst.alive and hinst.http_open:
+                        for g, ps in w.spec_of(host)['groups'].items():
+                            if prog in ps:
+                                for i in range(1, 5):
+                                    self.procs.setdefault(f'{g}:{prog}_{i:02d}', (g, prog))
+                        res = w.user_rpc(host, 'supvisors.update_numprocs', prog, 1, False, rng.random() < 0.5)
+                        self.count('numprocs_requests')
+                        if res[0] in ('ok', 'deferred'):
+                            self.count('numprocs_requests_served')
+                            self.count('numprocs_decreased_during_a_stop')
+                        w.run_for(rng.choice([0.0, 0.05, 0.5]))
+        elif kind == 'start_application_then_process':
+            # a non-distributed application is being started (several start_sequence levels, slow starts) when one
+            # more process of the same application is requested on the same instance: it joins the job in progress
+            restricted = [a for a in managed if self.model[a].get('distribution', 'ALL_INSTANCES') != 'ALL_INSTANCES']
+            if restricted:
+                app = rng.choice(restricted)
+                strategy = rng.choice(strategies)
+                rec['args'] = (strategy, app, False)
+                if any(i.running_truth().get(ns) in RUNNING_STATES for i in w.live() for ns in namespecs
+                       if ns.split(':')[0] == app):
+                    # the application is stopped first
+                    w.user_rpc(nick, 'supvisors.stop_application', app, False)
+                    for _ in range(8):
+                        w.run_for(TICK)
+                        if not any(i.running_truth().get(ns) not in (None, 0, 100, 200)
+                                   for i in w.live() for ns in namespecs if ns.split(':')[0] == app):
+                            break
+                rec['res'] = w.user_rpc(nick, 'supvisors.start_application', *rec['args'])
+                if rec['res'][0] == 'ok':
+                    self.count('non_distributed_applications_started_by_request')
+                names = [ns for ns in namespecs if ns.split(':')[0] == app]
+                for _ in range(rng.randint(1, 2)):
+                    w.run_for(rng.choice([0.05, 0.3, 1.0, 2.5]))
+                    if names and w.instances[nick].alive and w.instances[nick].http_open:
+                        res = w.user_rpc(nick, 'supvisors.start_process', rng.choice(strategies), rng.choice(names),
+                                         '', False)
+                        if res[0] == 'ok':
+                            self.count('processes_added_to_a_non_distributed_job')
         elif kind in ('enable', 'disable'):
             progs = sorted({p for ps in w.spec_of(nick)['groups'].values() for p in ps})
             if progs:
